@@ -244,8 +244,17 @@ func checkListGoroutines(c *Ctx) {
 		}
 	}
 	c.check(okk, rule, "_lister.list/channels-and-context", pos, "", "_lister.list: "+detail)
-	// canceller closure: defer cancel(); select { <-ShuttingDown ; <-donech }
-	if cl := c.mustFunc("", "_lister.list$1"); cl != nil {
+	// the two goroutines are identified by what they do (not by closure numbering): the worker
+	// is the one that calls executeList, the canceller the other one
+	bodies := goBodiesOf(fn)
+	worker := pickSub(bodies, func(s *subFunc) bool { return len(callsNamed(s.Fn, "_lister.executeList")) > 0 })
+	canceller := pickSub(bodies, func(s *subFunc) bool { return len(callsNamed(s.Fn, "_lister.executeList")) == 0 })
+	// canceller: defer cancel(); select { <-ShuttingDown ; <-donech }
+	if canceller == nil {
+		c.fail(rule, "_lister.list/canceller/cancels-on-shutdown-or-completion", pos, "no canceller goroutine found in _lister.list")
+	} else {
+		cl := canceller.Fn
+		c.useFn(cl)
 		ps := (&Walker{P: c.P}).FuncRegion(cl)
 		c.paths += len(ps)
 		ok := len(ps) == 2
@@ -269,10 +278,27 @@ func checkListGoroutines(c *Ctx) {
 				ok = false
 			}
 		}
-		c.check(ok, rule, "_lister.list$1/cancels-on-shutdown-or-completion", c.P.fnPos(cl), "", "the list canceller does not cancel the list context when the lister is shutting down or the list completed")
+		// the function it defers is the cancel of list()'s own WithCancel
+		if ok {
+			ok = false
+			for _, b := range cl.Blocks {
+				for _, in := range b.Instrs {
+					if d, okd := in.(*ssa.Defer); okd {
+						if o := canceller.outer(d.Call.Value); o != nil && isWithCancelPart(storedValue(o), 1) {
+							ok = true
+						}
+					}
+				}
+			}
+		}
+		c.check(ok, rule, "_lister.list/canceller/cancels-on-shutdown-or-completion", c.P.fnPos(cl), "", "the list canceller does not cancel the list context when the lister is shutting down or the list completed")
 	}
-	// worker closure: defer close(donech); runch <- l.executeList(ctx)
-	if cl := c.mustFunc("", "_lister.list$2"); cl != nil {
+	// worker: defer close(donech); runch <- l.executeList(ctx)
+	if worker == nil {
+		c.fail(rule, "_lister.list/worker/sends-result-then-closes-donech", pos, "no single worker goroutine calling executeList found in _lister.list")
+	} else {
+		cl := worker.Fn
+		c.useFn(cl)
 		ps := (&Walker{P: c.P}).FuncRegion(cl)
 		c.paths += len(ps)
 		ok := len(ps) == 1
@@ -290,8 +316,22 @@ func checkListGoroutines(c *Ctx) {
 			}
 			ok = hasClose && hasSend
 		}
-		c.check(ok, rule, "_lister.list$2/sends-result-then-closes-donech", c.P.fnPos(cl), "", "the list worker does not deliver executeList(ctx) once and close donech on exit")
+		c.check(ok, rule, "_lister.list/worker/sends-result-then-closes-donech", c.P.fnPos(cl), "", "the list worker does not deliver executeList(ctx) once and close donech on exit")
 	}
+}
+
+// isWithCancelPart: v is component idx (0 ctx, 1 cancel) of a context.WithCancel call.
+func isWithCancelPart(v ssa.Value, idx int) bool {
+	ex, ok := v.(*ssa.Extract)
+	if !ok || ex.Index != idx {
+		return false
+	}
+	call, ok := ex.Tuple.(*ssa.Call)
+	if !ok {
+		return false
+	}
+	g := call.Call.StaticCallee()
+	return g != nil && g.Name() == "WithCancel" && g.Pkg != nil && g.Pkg.Pkg.Path() == "context"
 }
 
 func checkTickerTable(c *Ctx) {
@@ -507,12 +547,10 @@ func checkPeriodFlow(c *Ctx) {
 	// builder.Create passes b.lb.period to newLister
 	if fn := c.mustFunc("", "builder.Create"); fn != nil {
 		ok := false
-		for _, b := range fn.Blocks {
-			for _, in := range b.Instrs {
-				if call, okc := in.(*ssa.Call); okc && call.Call.StaticCallee() != nil && fnName(call.Call.StaticCallee()) == "newLister" {
-					w := &Walker{P: c.P}
-					t := w.eval(newState(), &frame{fn: fn}, call.Call.Args[3])
-					if p, okp := t.FieldPath(); okp && strings.HasSuffix(p, ".lb.period") {
+		for _, pa := range pathsOf(c, fn) {
+			for _, e := range pa.Effects {
+				if e.Kind == "call" && e.Fn != nil && fnName(e.Fn) == "newLister" && len(e.Args) > 3 {
+					if p, okp := e.Args[3].FieldPath(); okp && strings.HasSuffix(p, ".lb.period") {
 						ok = true
 					}
 				}
